@@ -118,6 +118,7 @@ type c09world struct {
 	handler3 slog.Handler // three pending groups: derivations from it share whatever backing storage the handler keeps
 	bws      *zapcore.BufferedWriteSyncer
 	restore  func() // the restore function of a ReplaceGlobals made during set-up
+	common   []zap.Field // a field slice shared (read-only) by all tasks
 	locked   zapcore.WriteSyncer
 	combined zapcore.WriteSyncer
 	runTag   string
@@ -196,6 +197,7 @@ func runC09(c *Ctx) {
 	base := zap.New(core, opts...)
 	// shared loggers: some fresh (first use happens under contention)
 	w.restore = zap.ReplaceGlobals(base.Named("global"))
+	w.common = []zap.Field{zap.String("service", "c09"), zap.Error(errors.New("common error")), zap.Int("shard", 7), zap.Reflect("build", map[string]int{"n": 1}), zap.Skip(), zap.Time("born", time.Unix(1, 0).UTC())}
 	w.loggers = []*zap.Logger{
 		base,
 		base.With(zap.Int("shared", 1), zap.String("k", "v")),
@@ -402,6 +404,14 @@ func c09exec(c *Ctx, w *c09world, t, i int, op c09op) {
 				ch = l.With(richFields(op.b+t, i)...)
 			}
 		case 1:
+			if op.c%2 == 0 {
+				// one field slice, built once and only ever read by the tasks,
+				// spread into the calls of all of them
+				ch = l.WithLazy(w.common...)
+				ch.Info("lazy child over the common fields", w.common...)
+				ch = l.With(w.common...)
+				break
+			}
 			ch = l.WithLazy(zap.Int("t", t))
 		case 2:
 			ch = l.Named(fmt.Sprintf("t%d", t))
